@@ -1562,7 +1562,7 @@ class LinFamily:
             rest.append(m)
         mism = rest
         if self.prop == "C07":
-            mism = [m for m in mism if any(c.startswith("get") or c.startswith("linget") or c.startswith("linsnap") for c in m[2])]
+            mism = [m for m in mism if any(c.startswith("get") or c.startswith("linget") or c.startswith("linsnap") or c.startswith("lintwoget") for c in m[2])]
         elif self.prop == "C03":
             mism = [m for m in mism if any(c.startswith("ref") or c.startswith("linref") for c in m[2])]
         elif self.prop == "C16":
@@ -1575,6 +1575,9 @@ class LinFamily:
             json.dump({"property": self.prop, "family": self.FAMILY, "seed": ctx.seed, "components": comps, "history": e}, open(rp, "w"), indent=1)
             if ev == "linget":
                 res.violations.append({"replay": rp, "what": f"Get while an installed {e['kind']} entry was being replaced {e['replaces']} times: {e['missing']} of {e['gets']} Gets did not return it, {e['dup']} returned it twice ({comps})"})
+                continue
+            if ev == "lintwoget":
+                res.violations.append({"replay": rp, "what": f"two Gets of one instance in progress at the same time: A returned {e['gotA']} (its scope: {e['wantA']}), B returned {e['gotB']} (its scope: {e['wantB']}) {comps} {e['failed']}"})
                 continue
             if ev == "linsnap":
                 res.violations.append({"replay": rp, "what": f"a Get(ALL) in progress while {e['w1']} and then {e['w2']} were installed returned {sorted(set(e['got']) - set(e['base']))} on top of the base contents "
